@@ -46,7 +46,8 @@ CLAIMED["C09"] = (
 CLAIMED["C01"] = (
     "generated-input totality check: grammar documents cut at every prefix, point-edited, token soup, "
     "bracket ramps, arbitrary unicode; bounded-exhaustive escape-atom sequences and exception-class x "
-    "fault-site product; response-format validator as oracle",
+    "fault-site product; response-format validator as oracle; thorough tier adds coverage-guided fuzzing "
+    "(atheris/libFuzzer, 12 processes, empty and seeded corpora) with the same oracle inside the target",
     "Every parse entry point must return a Node or raise GraphQLSyntaxError on every generated text; "
     "graphql_sync/graphql must return an ExecutionResult whose formatted form passes a response-format "
     "validator written from the specification for generated (schema, source, adversarial variables, "
@@ -300,8 +301,10 @@ def main():
             na.append({"property_id": pid, "reason": PENDING_REASON})
     manifest = {
         "version": 1,
-        "setup_cmd": "/venv/bin/python -c 'import hypothesis' 2>/dev/null || /venv/bin/pip install "
-                     "--no-index --find-links /opt/veriftools/wheels hypothesis",
+        "setup_cmd": "(/venv/bin/python -c 'import hypothesis' 2>/dev/null || /venv/bin/pip install "
+                     "--no-index --find-links /opt/veriftools/wheels hypothesis); "
+                     "(/venv/bin/python -c 'import atheris' 2>/dev/null || /venv/bin/pip install "
+                     "--no-index --find-links /opt/veriftools/wheels atheris || true)",
         "hooks": {
             "guard": "GRAPHQL_CORE_VERIF",
             "enable": "no hooks are needed: every observation point is public API or harness-supplied "
@@ -318,6 +321,13 @@ def main():
             "kind_free_text": "property-based testing: Hypothesis strategies + bounded-exhaustive "
                               "enumeration + deterministic asyncio scheduler, explicit reference-model "
                               "oracles, JSON cases, signature-bucketed failures, replay files",
+        }, {
+            "name": "atheris-c01",
+            "path": "fuzz/",
+            "serves_properties": ["C01"],
+            "kind_free_text": "coverage-guided fuzzing (atheris / libFuzzer) of the parse entry points and the "
+                              "request pipeline with the C01 oracle inside the target; thorough tier only, "
+                              "crash artifacts are re-evaluated and reported as ordinary violations",
         }],
         "checks": checks,
         "not_applicable": na,
